@@ -23,6 +23,11 @@ from vf import common
 
 MAX_REPLAYS_PER_KEY = 3
 MAX_SAMPLES = 5
+MAX_VIOLATIONS_PER_SHARD = 300
+
+
+class StopShard(BaseException):
+    pass
 
 
 # ------------------------------------------------------------------ worker
@@ -87,6 +92,10 @@ class Ctx:
         if n < MAX_REPLAYS_PER_KEY:
             self.violations.append({'key': key, 'what': what, 'case': case,
                                     'detail': detail})
+        # a shard that has already seen plenty of violations has decided its
+        # part of the verdict: stop instead of grinding through a broken tree
+        if self.counters['violations'] >= MAX_VIOLATIONS_PER_SHARD:
+            raise StopShard()
 
     def sample(self, obj, klass='default'):
         lst = self.samples.setdefault(klass, [])
@@ -130,6 +139,13 @@ def worker_main(argv):
             mod.run_unit(u, ctx)
         if hasattr(mod, 'finish_worker'):
             mod.finish_worker(ctx)
+    except StopShard:
+        ctx.counters['shards_stopped_early'] += 1
+        try:
+            if hasattr(mod, 'finish_worker'):
+                mod.finish_worker(ctx)
+        except Exception:
+            pass
     except BaseException:
         status = 'crash'
         ctx.extra['crash'] = traceback.format_exc()
